@@ -90,6 +90,8 @@ type folder struct {
 	// hook, when set, sees every instruction of the outermost function before it is
 	// evaluated, with a lookup for operand values; returning true stops the fold.
 	hook func(in ssa.Instruction, val func(ssa.Value) fval) bool
+	// invoke, when set, gives the result of interface method calls (at any depth); ok=false leaves the result unknown.
+	invoke func(call *ssa.Call, args []fval) (fval, bool)
 }
 
 var errStopped = fmt.Errorf("stopped by hook")
@@ -214,6 +216,18 @@ func (f *folder) evalInstr(env map[ssa.Value]fval, mem map[*ssa.Alloc]fval, in s
 			mem[a.addr.base] = setFvalPath(mem[a.addr.base], a.addr.path, f.val(env, x.Val))
 		}
 	case *ssa.FieldAddr:
+		if a := f.val(env, x.X); a.cvptr != nil {
+			// a field of a known immutable struct handed in by pointer
+			if sv, ok := a.cvptr.(*StructV); ok {
+				name, _, _ := fieldName(x)
+				if fv, ok := sv.Fields[name]; ok {
+					env[x] = fval{cvptr: fv}
+					return
+				}
+			}
+			env[x] = top
+			return
+		}
 		if a := f.val(env, x.X); a.addr != nil {
 			name, _, _ := fieldName(x)
 			env[x] = fval{addr: &faddr{base: a.addr.base, path: append(append([]string{}, a.addr.path...), name)}}
@@ -305,6 +319,18 @@ func (f *folder) evalInstr(env map[ssa.Value]fval, mem map[*ssa.Alloc]fval, in s
 				return
 			}
 			env[x] = top
+			return
+		}
+		if x.Call.IsInvoke() && f.invoke != nil {
+			var as []fval
+			for _, a := range x.Call.Args {
+				as = append(as, f.val(env, a))
+			}
+			if r, ok := f.invoke(x, as); ok {
+				env[x] = r
+			} else {
+				env[x] = top
+			}
 			return
 		}
 		callee := staticCallee(&x.Call)
